@@ -141,6 +141,7 @@ int main(int argc, char **argv)
 		int m = hexbytes(argv[3], (uint8_t *)tcm->cmd), n;
 		tcm->cmd[m < 1023 ? m : 1023] = 0;
 		tcm->critical = atoi(argv[2]);
+		trx->prev_state = 7;
 		llist_add_tail(&tcm->list, &trx->trx_ctrl_list);
 		n = hexbytes(argv[4], d);
 		if (send(sv[1], d, n, 0) != n) return 4;
@@ -167,6 +168,76 @@ def hexs(bs):
     return "".join("%02x" % (b & 255) for b in bs) or "00"
 
 
+def accept_expect(cmd, d, crit):
+    """Concrete check of the acceptance contract's pre-condition and, when it holds, the outcome the statement prescribes:
+    cmd = b"CMD " verb [b" " ...], d = b"RSP " verb b" " digits [b" " results] b"\\0".  None = pre-condition not met."""
+    import re
+    m = re.fullmatch(rb"CMD ([^ \x00]{1,16})( [^\x00]*)?", cmd)
+    if not m or len(cmd) > 1022:
+        return None
+    verb = m.group(1)
+    r = re.fullmatch(rb"RSP ([^ \x00]{1,16}) ([0-9]{1,9})( [^\x00]*)?\x00", d)
+    if not r or r.group(1) != verb or len(d) > 1023:
+        return None
+    status = int(r.group(2))
+    results = r.group(3)
+    if verb == b"MEASURE" and status == 0:
+        if not results or not re.fullmatch(rb" [0-9]{1,9} -?[0-9]{1,4}", results) or len(r.group(2)) != 1:
+            return None          # an accepted MEASURE carries "<kHz> <dBm>" (proved reply format of the toolkit)
+    # verbs that only share a prefix with a dispatch keyword are outside the emitted set
+    for kw in (b"POWERON", b"POWEROFF", b"MEASURE", b"ECHO"):
+        if verb.startswith(kw) and verb != kw:
+            return None
+    accepted = status == 0 or not crit
+    exp = {"ret": 0 if accepted else -5, "list_empty": 1 if accepted else 0, "fsm_term": 0 if accepted else 1}
+    if accepted:
+        exp["freed"] = 1
+        if verb == b"POWERON":
+            exp.update(powered_up=1, fsm_chg=[2])
+        elif verb == b"POWEROFF":
+            exp.update(powered_up=0, fsm_chg=[1])
+        elif verb == b"ECHO":
+            exp.update(fsm_chg=[1])
+        elif verb == b"MEASURE":
+            exp.update(fsm_chg=[], phyif_rsp=1 if (status == 0) else None)
+        else:
+            exp.update(fsm_chg=[7])          # prev_state, set to 7 by the harness
+    return exp
+
+
+def run_accept(h, cmd, d, crit, exp):
+    r = h.run(["accept", int(crit), hexs(cmd), hexs(d)])
+    so = r.get("stdout") or ""
+    obs = R.kv_output(so.replace("\n", " "))
+    obs["fsm_chg"] = [int(l.split("=")[1]) for l in so.splitlines() if l.startswith("fsm_chg=")]
+    obs["fsm_term"] = len([l for l in so.splitlines() if l.startswith("fsm_term=")])
+    obs["freed"] = len([l for l in so.splitlines() if l == "freed"])
+    obs["phyif_rsp"] = len([l for l in so.splitlines() if l.startswith("phyif_rsp")])
+    bad = {k: [obs.get(k), v] for k, v in exp.items() if v is not None and obs.get(k) != v}
+    if r.get("sanitizer") or r.get("rc") not in (0,):
+        bad["sanitizer"] = r.get("sanitizer") or "exit %s" % r.get("rc")
+    return bad, obs
+
+
+def accept_candidates(case, clause):
+    """well-formed command/response pairs, the verb class of the failing case first"""
+    verbs = ["POWERON", "POWEROFF", "MEASURE", "ECHO", "SETSLOT", "RXTUNE", "SETTA", "SETFH"]
+    for v in verbs:
+        if v in case:
+            verbs.remove(v)
+            verbs.insert(0, v)
+    if "other" in case:
+        verbs = verbs[4:] + verbs[:4]
+    for v in verbs:
+        for crit in (1, 0):
+            for st in ("0", "1", "12"):
+                args = {"MEASURE": " 935000", "SETSLOT": " 1 5", "RXTUNE": " 935000", "SETTA": " 3", "SETFH": " 1 0 935000 890000"}.get(v, "")
+                res = " 935000 -60" if v == "MEASURE" else args
+                yield ("CMD %s%s" % (v, args)).encode(), ("RSP %s %s%s" % (v, st, res)).encode() + b"\0", crit
+                if not (v == "MEASURE" and st == "0"):
+                    yield ("CMD %s%s" % (v, args)).encode(), ("RSP %s %s" % (v, st)).encode() + b"\0", crit
+
+
 def replay_c(payload):
     w = payload["inputs"]
     func, clause = w.get("func"), payload.get("clause") or w.get("clause") or ""
@@ -190,19 +261,31 @@ def replay_c(payload):
             return {"confirmed": bool(bad), "observed": {"ret": out.get("ret"), "sent": [s[:60] for s in sent]}, "expected": "SETFH queued (0 / -ENOMEM)",
                     "differs": bad, "inputs_used": {"ma_len": n, "arfcn": "%d..%d (DCS 1800)" % (arfcns[0], arfcns[-1]) if arfcns else None}, "cmd": h.cmd}
         if func in ("trx_ctrl_read_cb",):
-            cmd = [b for b in (w.get("cmd1") or [])][:w.get("cmdlen1", 0)]
-            d = list(w.get("dgram") or [])[:max(w.get("n", 0), 0)]
-            status, crit = w.get("status", 0), w.get("critical", 1)
-            r = h.run(["accept", crit, hexs([b or 0x41 for b in cmd]), hexs(d)])
-            so = r.get("stdout") or ""
-            obs = R.kv_output(so.replace("\n", " "))
-            accepted = status == 0 or crit == 0
-            exp = {"ret": 0 if accepted else -5, "list_empty": 1 if accepted else 0}
-            bad = {k: [obs.get(k), v] for k, v in exp.items() if obs.get(k) != v}
-            if r.get("sanitizer") or r.get("rc") not in (0,):
-                bad["sanitizer"] = r.get("sanitizer") or "exit %s" % r.get("rc")
-            return {"confirmed": bool(bad), "observed": obs, "expected": exp, "differs": bad,
-                    "inputs_used": {"cmd": bytes(b & 255 for b in cmd).decode("latin1"), "dgram": bytes(b & 255 for b in d).decode("latin1")}, "cmd": h.cmd}
+            cmd = bytes((b & 255) for b in (w.get("cmd1") or [])[:max(w.get("cmdlen1", 0), 0)])
+            d = bytes((b & 255) for b in list(w.get("dgram") or [])[:max(w.get("n", 0), 0)])
+            crit = w.get("critical", 1)
+            exp = accept_expect(cmd, d, crit)
+            tried = 0
+            found_by = "model"
+            if exp is None:
+                # the counter-model's octets do not satisfy the contract's (quantified) pre-condition on command / response format:
+                # nothing can be concluded from running them.  Clause-directed search over inputs that DO satisfy it.
+                found_by = None
+                for cmd2, d2, crit2 in accept_candidates(w.get("case") or "", clause):
+                    tried += 1
+                    e2 = accept_expect(cmd2, d2, crit2)
+                    if e2 is None:
+                        continue
+                    bad2, obs2 = run_accept(h, cmd2, d2, crit2, e2)
+                    if bad2:
+                        return {"confirmed": True, "found_by": "search (the model's octets violate the assumed format; %d well-formed inputs tried)" % tried,
+                                "observed": obs2, "expected": e2, "differs": bad2,
+                                "inputs_used": {"cmd": cmd2.decode("latin1"), "dgram": d2.decode("latin1"), "critical": crit2}, "cmd": h.cmd}
+                return {"confirmed": False, "observed": "model input outside the pre-condition (format of command/response); %d well-formed inputs ran as specified" % tried,
+                        "expected": "n/a", "precondition_met_by_model_input": False}
+            bad, obs = run_accept(h, cmd, d, crit, exp)
+            return {"confirmed": bool(bad), "found_by": found_by, "observed": obs, "expected": exp, "differs": bad, "precondition_met_by_model_input": True,
+                    "inputs_used": {"cmd": cmd.decode("latin1"), "dgram": d.decode("latin1"), "critical": crit}, "cmd": h.cmd}
         if func and func.startswith("trx_if_cmd_"):
             em = {e.name: e for e in CT.EMITTERS + [CT.EmitSetslot]}.get(func)
             verb = em.verb
